@@ -5,42 +5,121 @@
    of the VM, VM core, and the effect classes of every Go function from the intra-package call graph.
    The purity statements are closed by vm_compute over that file, so ANY impure entry breaks them. *)
 From Coq Require Import String List Bool.
-From ZV Require Import Generated.SandboxTables Model.Sandbox Proofs.SandboxProofs Model.Cmdline Proofs.CmdlineProofs.
+From ZV Require Import Generated.SandboxTables Model.Sandbox Proofs.SandboxProofs Model.Cmdline Proofs.CmdlineProofs Model.Family Proofs.FamilyProofs.
 Import ListNotations.
 Open Scope string_scope.
 
 (* ---- 1. the capability closure: aliases, eval, apply, map, macros add nothing ---- *)
-Theorem capability_closed : forall c p, incl (prims_reached c p) (closure c).
+Theorem capability_closed : forall (c : ctx) p, incl (prims_reached c p) (closure c).
 Proof. exact SandboxProofs.capability_closed. Qed.
 Print Assumptions capability_closed.
 
 (* ---- 2. purity of the generated tables ---- *)
-Theorem sandbox_tables_pure : forall c n k f, sandboxed c = true ->
+Theorem sandbox_tables_pure : forall (c : cfg) n k f, sandboxed c = true ->
   In (n, k, f) (bindings c) -> k <> KValue -> effect_of c f = [].
 Proof. exact SandboxProofs.sandbox_tables_pure. Qed.
 Print Assumptions sandbox_tables_pure.
 
-Theorem special_forms_pure : forall c n f, sandboxed c = true ->
+Theorem special_forms_pure : forall (c : cfg) n f, sandboxed c = true ->
   In (n, f) special_forms -> effect_of c f = [].
 Proof. exact SandboxProofs.special_forms_pure. Qed.
 Print Assumptions special_forms_pure.
 
-Theorem implicit_prims_pure : forall c n k f, sandboxed c = true -> In (n, k, f) implicit_prims -> effect_of c f = [].
+Theorem implicit_prims_pure : forall (c : cfg) n k f, sandboxed c = true -> In (n, k, f) implicit_prims -> effect_of c f = [].
 Proof. exact SandboxProofs.implicit_prims_pure. Qed.
 Print Assumptions implicit_prims_pure.
 
-Theorem vm_core_pure : forall c f, sandboxed c = true -> In f vm_core -> effect_of c f = [].
+Theorem vm_core_pure : forall (c : cfg) f, sandboxed c = true -> In f vm_core -> effect_of c f = [].
 Proof. exact SandboxProofs.vm_core_pure. Qed.
 Print Assumptions vm_core_pure.
 
-Theorem closure_pure : forall c f, sandboxed c = true -> In f (closure c) -> effect_of c f = [].
+Theorem closure_pure : forall (c : cfg) f, sandboxed c = true -> In f (closure c) -> effect_of c f = [].
 Proof. exact SandboxProofs.closure_pure. Qed.
 Print Assumptions closure_pure.
 
 (* ---- 3. THE PROPERTY (full statement): no program has any effect in a sandboxed configuration ---- *)
-Theorem sandbox_no_effect : forall c p, sandboxed c = true -> effects_of c (run_abs c p) = [].
+Theorem sandbox_no_effect : forall (c : cfg) p, sandboxed c = true -> effects_of c (run_abs c p) = [].
 Proof. exact SandboxProofs.sandbox_no_effect. Qed.
 Print Assumptions sandbox_no_effect.
+
+(* ---- 3b. any interpreter context (flag, tables) whose tables are pure: the statement the family theorems instantiate ---- *)
+Theorem ctx_no_effect : forall (c : ctx) p, tables_ok c = true -> effects_of c (run_abs c p) = [].
+Proof. exact SandboxProofs.ctx_no_effect. Qed.
+Print Assumptions ctx_no_effect.
+
+(* ---- 3c. the interpreter FAMILY (Model/Family.v): NewZlispSandbox / NewZlisp, StandardSetup, ImportDemoData,
+   Duplicate, Clone (sharing the binding tables), script-level definitions -- in ANY order, any number of times,
+   any number of interpreters in one process.  Invariant preserved by every operation; the registration tables,
+   the copies-the-flag facts about Duplicate / Clone and ReplMain's plans are GENERATED from the Go source. ---- *)
+Theorem family_invariant : forall ops, Forall known_op ops -> FInv (run_family ops).
+Proof. exact FamilyProofs.family_invariant. Qed.
+Print Assumptions family_invariant.
+
+Theorem fstep_preserves_invariant : forall st op, known_op op -> FInv st -> FInv (fstep st op).
+Proof. exact FamilyProofs.fstep_inv. Qed.
+Print Assumptions fstep_preserves_invariant.
+
+(* the sandboxed field of every member = "its root constructor was NewZlispSandbox" (never lost, never gained) *)
+Theorem family_flag_is_origin : forall ops i it, Forall known_op ops ->
+  nth_error (interps (run_family ops)) i = Some it -> iflag it = iorigin it.
+Proof. exact FamilyProofs.family_flag_is_origin. Qed.
+Print Assumptions family_flag_is_origin.
+
+(* THE PROPERTY for every member of every family *)
+Theorem family_no_effect : forall ops it p, Forall known_op ops ->
+  In it (interps (run_family ops)) -> iorigin it = true ->
+  effects_of (ctx_of_interp (run_family ops) it) (run_abs (ctx_of_interp (run_family ops) it) p) = [].
+Proof. exact FamilyProofs.family_no_effect. Qed.
+Print Assumptions family_no_effect.
+
+(* ReplMain has a plan for every assignment of the flags its construction depends on ... *)
+Theorem replmain_total : forall v, In v (all_vecs (length replmain_flags)) -> exists p, find_plan v replmain_plans = Some p.
+Proof. exact FamilyProofs.replmain_total. Qed.
+Print Assumptions replmain_total.
+
+(* ... and under every assignment with the sandbox flag on (-demo, -c ... in any combination) the interpreter it
+   builds, and everything later derived from it, is sandboxed and effect-free, whatever else the process does *)
+Theorem replmain_sandboxed : forall v pl more it p,
+  find_plan v replmain_plans = Some pl -> flag_value "Sandboxed" replmain_flags v = true ->
+  Forall known_op more ->
+  In it (interps (run_family (plan_ops pl ++ more))) -> iworld it = 0 ->
+  iflag it = true /\
+  effects_of (ctx_of_interp (run_family (plan_ops pl ++ more)) it) (run_abs (ctx_of_interp (run_family (plan_ops pl ++ more)) it) p) = [].
+Proof. exact FamilyProofs.replmain_sandboxed. Qed.
+Print Assumptions replmain_sandboxed.
+
+Theorem cmdline_construction_sandboxed : forall (s : st) demo, sandboxed_flag s = true ->
+  exists pl, construction s demo = Some (plan_ops pl) /\ fst pl = true /\ Forall known_op (plan_ops pl).
+Proof. exact FamilyProofs.cmdline_construction_sandboxed. Qed.
+Print Assumptions cmdline_construction_sandboxed.
+
+(* the fixed configurations are family members: the two presentations of the generated tables agree *)
+Theorem std_is_composed : bindings_std = ctor_sandbox ++ std_regs_sb.
+Proof. exact FamilyProofs.std_is_composed. Qed.
+Print Assumptions std_is_composed.
+
+(* non-vacuity: a history mixing an unrestricted and a sandboxed interpreter, duplicates of both *)
+Example family_history_flags :
+  map (fun i => flag_of (run_family [FNewFull; FStdSetup 0; FNewSandbox; FStdSetup 1; FDup 1; FClone 2; FDup 0; FDefValue 3 "system"]) i) [0; 1; 2; 3; 4; 5]
+  = [Some false; Some true; Some true; Some true; Some false; None].
+Proof. vm_compute. reflexivity. Qed.
+Example family_dup_of_sandbox_refuses_include :
+  family_predicted (run_family [FNewSandbox; FStdSetup 0; FDup 0]) 1 (PSpecial "include" [PConst]) = [].
+Proof. vm_compute. reflexivity. Qed.
+Example family_dup_of_full_is_effectful :
+  family_predicted (run_family [FNewFull; FStdSetup 0; FDup 0]) 1 (PSeq [PSpecial "include" [PConst]; PCall (PRef "sys") [PConst]]) = ["file_read"; "process"].
+Proof. vm_compute. reflexivity. Qed.
+Example family_setup_after_full_does_not_leak :
+  existsb (String.eqb "sys") (names_of (run_family [FNewFull; FStdSetup 0; FNewSandbox; FStdSetup 1]) 1) = false /\
+  existsb (String.eqb "sys") (names_of (run_family [FNewFull; FStdSetup 0; FNewSandbox; FStdSetup 1]) 0) = true.
+Proof. vm_compute. split; reflexivity. Qed.
+Example replmain_demo_sandbox_plan :
+  construction {| sandboxed_flag := true; interactive := false; exitonfail := false; command := true |} true
+  = Some [FNewSandbox; FStdSetup 0; FDemo 0].
+Proof. vm_compute. reflexivity. Qed.
+Example unknown_registration_breaks_the_invariant :
+  tables_ok (ctx_of_interp (run_family [FNewSandbox; FUnknown 0]) {| iworld := 0; iflag := true; iorigin := true |}) = false.
+Proof. vm_compute. reflexivity. Qed.
 
 (* ---- 4. the command line of cmd/zygo (Model/Cmdline.v mirrors flag.FlagSet.Parse + ReplMain's choice) ----
    "run under -sandbox" = the flag part of the command line leaves the sandbox flag on; then the run is
